@@ -1109,6 +1109,9 @@ type udpEndpointPoolShard struct {
 type udpEndpointDialerBucket struct {
 	mu        sync.RWMutex
 	endpoints map[*UdpEndpoint]struct{}
+	// dropped is set (under mu) once Reset has removed the bucket from the
+	// index; a registrant that still holds it must fetch a fresh bucket.
+	dropped bool
 }
 
 type udpEndpointTransportBucket struct {
@@ -1326,13 +1329,22 @@ func (p *UdpEndpointPool) registerEndpoint(ue *UdpEndpoint) {
 	}
 	key, ok := p.endpointDialerNetworkKey(ue)
 	if ok {
-		actual, _ := p.dialerIndex.LoadOrStore(key, &udpEndpointDialerBucket{
-			endpoints: make(map[*UdpEndpoint]struct{}),
-		})
-		bucket := actual.(*udpEndpointDialerBucket)
-		bucket.mu.Lock()
-		bucket.endpoints[ue] = struct{}{}
-		bucket.mu.Unlock()
+		for {
+			actual, _ := p.dialerIndex.LoadOrStore(key, &udpEndpointDialerBucket{
+				endpoints: make(map[*UdpEndpoint]struct{}),
+			})
+			bucket := actual.(*udpEndpointDialerBucket)
+			bucket.mu.Lock()
+			if bucket.dropped {
+				// Reset is dropping this bucket: take a fresh one.
+				bucket.mu.Unlock()
+				p.dialerIndex.CompareAndDelete(key, actual)
+				continue
+			}
+			bucket.endpoints[ue] = struct{}{}
+			bucket.mu.Unlock()
+			break
+		}
 	}
 	p.registerTransportEndpoint(ue)
 }
@@ -1423,8 +1435,25 @@ func (p *UdpEndpointPool) Reset() {
 	// sync.Map struct. Struct assignment races with background goroutines
 	// (e.g. endpoint retire → unregisterEndpoint) that concurrently Load
 	// from the same map.
-	p.dialerIndex.Range(func(key, _ any) bool {
-		p.dialerIndex.Delete(key)
+	p.dialerIndex.Range(func(key, value any) bool {
+		// Endpoints that registered after their shard was swept above (created
+		// while Reset was running) are still in the pool; without a reverse
+		// index no later health invalidation could retire them. They are
+		// pre-reset state like everything else: retire them, and only then
+		// drop the bucket, so that an invalidation racing us still finds them.
+		if bucket, ok := value.(*udpEndpointDialerBucket); ok {
+			bucket.mu.Lock()
+			bucket.dropped = true
+			stragglers := make([]*UdpEndpoint, 0, len(bucket.endpoints))
+			for ue := range bucket.endpoints {
+				stragglers = append(stragglers, ue)
+			}
+			bucket.mu.Unlock()
+			for _, ue := range stragglers {
+				ue.retire()
+			}
+		}
+		p.dialerIndex.CompareAndDelete(key, value)
 		return true
 	})
 	p.dialerEpoch.Range(func(key, value any) bool {
